@@ -10,7 +10,7 @@ Values
 Exploration is depth-first by decision replay: a path is re-executed from the harness start with the
 recorded branch decisions; new branch points are decided by an (incremental) feasibility query.
 """
-import re, time, itertools
+import os, re, time, itertools
 import z3
 
 WORD = 64
@@ -1299,12 +1299,48 @@ def explore(ex, body, max_paths=100000, budget_s=None):
     return results
 
 
+XCHECK = dict(enabled=bool(os.environ.get('VERIF_CROSSCHECK')), budget=int(os.environ.get('VERIF_CROSSCHECK_MAX', '150')), every=int(os.environ.get('VERIF_CROSSCHECK_EVERY', '7')),
+              seen=0, checked=0, agreed=0, cvc5_unknown=0, disagreed=0, cvc5_s=0.0)
+
+
+def cvc5_decide(pc, extra, tlimit_ms=20000):
+    """re-decide pc ∧ extra with cvc5 1.0 (SMT-LIB2 text produced by z3): 'sat' | 'unsat' | 'unknown'"""
+    import subprocess, tempfile
+    s = z3.Solver()
+    for c in pc: s.add(c)
+    if extra is not None: s.add(to_z3_bool(extra))
+    smt = '(set-logic ALL)\n' + s.to_smt2()
+    t0 = time.time()
+    try:
+        with tempfile.NamedTemporaryFile('w', suffix='.smt2', delete=True) as f:
+            f.write(smt); f.flush()
+            r = subprocess.run(['cvc5', '--lang', 'smt2', f'--tlimit={tlimit_ms}', f.name], capture_output=True, text=True, timeout=tlimit_ms / 1000 + 10)
+    except Exception:
+        return 'unknown'
+    finally:
+        XCHECK['cvc5_s'] += time.time() - t0
+    out = r.stdout.strip().splitlines()
+    if not out or any('(error' in l for l in out): return 'unknown'
+    return out[0].strip() if out[0].strip() in ('sat', 'unsat') else 'unknown'
+
+
 def solve(pc, extra, timeout_ms=60000):
-    """sat/unsat of pc ∧ extra; returns ('sat', model) | ('unsat', None) | ('unknown', reason)"""
+    """sat/unsat of pc ∧ extra; returns ('sat', model) | ('unsat', None) | ('unknown', reason).
+    With VERIF_CROSSCHECK set (thorough tier) a sample of the final queries is re-decided by cvc5; a disagreement makes
+    the answer 'unknown' (the obligation becomes inconclusive), a cvc5 time-out / error is only counted."""
     s = z3.Solver(); s.set('timeout', timeout_ms)
     for c in pc: s.add(c)
     if extra is not None: s.add(to_z3_bool(extra))
     r = s.check()
-    if r == z3.sat: return 'sat', s.model()
-    if r == z3.unsat: return 'unsat', None
-    return 'unknown', s.reason_unknown()
+    res = ('sat', s.model()) if r == z3.sat else (('unsat', None) if r == z3.unsat else ('unknown', s.reason_unknown()))
+    if XCHECK['enabled'] and res[0] != 'unknown':
+        XCHECK['seen'] += 1
+        if XCHECK['checked'] < XCHECK['budget'] and XCHECK['seen'] % XCHECK['every'] == 1:
+            XCHECK['checked'] += 1
+            other = cvc5_decide(pc, extra)
+            if other == 'unknown': XCHECK['cvc5_unknown'] += 1
+            elif other == res[0]: XCHECK['agreed'] += 1
+            else:
+                XCHECK['disagreed'] += 1
+                return 'unknown', f'solver disagreement: z3 {res[0]}, cvc5 {other}'
+    return res
